@@ -96,7 +96,22 @@ pub struct Sim {
     pub crash_sig: [i32; MAXT],
     pub overflow: bool,
     pub switches: u32,
+    /// accesses to the monitored page per simulated thread in this phase (runaway bound)
+    accesses: [u32; MAXT],
+    tids: [libc::pthread_t; MAXT],
 }
+
+/// An execution that touches the shared page more often than this has run away (the largest
+/// generated program performs a few dozen accesses): it is ended and reported as crashed.
+pub const ACCESS_BUDGET: u32 = 4096;
+/// CPU seconds (user and system: ITIMER_PROF) one scenario may consume before the execution holding the baton is ended.
+pub const CPU_BUDGET_S: i64 = 5;
+/// the pseudo signal number both bounds report
+pub const RUNAWAY: i32 = libc::SIGXCPU;
+
+/// how often the CPU budget ended an execution in this process (each costs CPU_BUDGET_S seconds:
+/// minimisation stops trying variants after a few)
+pub static WATCHDOG_FIRED: std::sync::atomic::AtomicU32 = std::sync::atomic::AtomicU32::new(0);
 
 static mut SIM: *mut Sim = std::ptr::null_mut();
 
@@ -217,6 +232,7 @@ impl Sim {
         self.events.clear();
         self.switches = 0;
         self.overflow = false;
+        self.accesses = [0; MAXT];
         self.pending = [None; MAXT];
         self.crash_sig = [0; MAXT];
         match replay {
@@ -343,6 +359,7 @@ pub enum Guarded<T> {
 pub fn guarded<'a, T>(me: usize, f: impl FnOnce() -> T + 'a) -> Guarded<T> {
     let mut ctx: CallCtx<T> = CallCtx { f: Some(Box::new(f)), out: None };
     let mut jb = JmpBuf { regs: [0; 8] };
+    sim().tids[me] = unsafe { libc::pthread_self() };
     sim().jb[me] = &mut jb;
     let r = unsafe { xaddsim_guarded_call(trampoline::<T>, &mut ctx as *mut _ as *mut u8, &mut jb) };
     sim().jb[me] = std::ptr::null_mut();
@@ -421,6 +438,11 @@ extern "C" fn on_segv(sig: libc::c_int, info: *mut libc::siginfo_t, ctx: *mut li
         if s.pending[me].is_some() {
             // a second fault while single-stepping: cannot happen with the page open
             recover_or_die(sig, uc);
+            return;
+        }
+        s.accesses[me] += 1;
+        if s.accesses[me] > ACCESS_BUDGET {
+            recover_or_die(RUNAWAY, uc);
             return;
         }
         let off = addr - base;
@@ -526,6 +548,44 @@ extern "C" fn on_trap(sig: libc::c_int, _info: *mut libc::siginfo_t, ctx: *mut l
     }
 }
 
+/// The CPU budget of the scenario ran out (ITIMER_PROF, so a stalled machine cannot fire it):
+/// end the execution that holds the baton — it is the only one running.
+extern "C" fn on_vtalrm(_sig: libc::c_int, _info: *mut libc::siginfo_t, ctx: *mut libc::c_void) {
+    unsafe {
+        let s = sim();
+        let holder = s.baton.load(Ordering::Acquire);
+        if !s.active || holder < 0 || s.jb[holder as usize].is_null() {
+            return;
+        }
+        WATCHDOG_FIRED.fetch_add(1, Ordering::Relaxed);
+        let tid = s.tids[holder as usize];
+        if libc::pthread_equal(libc::pthread_self(), tid) != 0 {
+            recover_or_die(RUNAWAY, ctx as *mut libc::ucontext_t);
+        } else {
+            libc::pthread_kill(tid, libc::SIGXCPU);
+        }
+    }
+}
+
+extern "C" fn on_xcpu(_sig: libc::c_int, _info: *mut libc::siginfo_t, ctx: *mut libc::c_void) {
+    unsafe {
+        let s = sim();
+        let holder = s.baton.load(Ordering::Acquire);
+        if s.active && holder >= 0 && !s.jb[holder as usize].is_null() && libc::pthread_equal(libc::pthread_self(), s.tids[holder as usize]) != 0 {
+            recover_or_die(RUNAWAY, ctx as *mut libc::ucontext_t);
+        }
+    }
+}
+
+/// Arm (seconds > 0) or disarm (0) the per-scenario CPU budget. It fires again every `seconds` of CPU:
+/// the same program runs away in the solo pass and again in the concurrent pass.
+pub fn cpu_budget(seconds: i64) {
+    unsafe {
+        let it = libc::itimerval { it_interval: libc::timeval { tv_sec: seconds, tv_usec: 0 }, it_value: libc::timeval { tv_sec: seconds, tv_usec: 0 } };
+        libc::setitimer(libc::ITIMER_PROF, &it, std::ptr::null_mut());
+    }
+}
+
 extern "C" fn on_other(sig: libc::c_int, _info: *mut libc::siginfo_t, ctx: *mut libc::c_void) {
     unsafe { recover_or_die(sig, ctx as *mut libc::ucontext_t) }
 }
@@ -566,6 +626,8 @@ pub fn init() {
             crash_sig: [0; MAXT],
             overflow: false,
             switches: 0,
+            accesses: [0; MAXT],
+            tids: [0; MAXT],
         });
         SIM = Box::leak(s);
         for (sig, h) in [
@@ -577,6 +639,8 @@ pub fn init() {
             // a non-unwinding panic inside rbpf (e.g. rustc's misaligned-dereference check) ends
             // in abort(): an outcome of the execution, not the death of the worker
             (libc::SIGABRT, on_other as *const () as usize),
+            (libc::SIGPROF, on_vtalrm as *const () as usize),
+            (libc::SIGXCPU, on_xcpu as *const () as usize),
         ] {
             let mut sa: libc::sigaction = std::mem::zeroed();
             sa.sa_sigaction = h;
